@@ -1107,10 +1107,16 @@ pub(crate) fn calculate_func_call_order(
         let mut seen_named_args = HashSet::default();
         let mut missing_arg_names: HashSet<String> = func_arg_info.required_args.clone();
         // TODO: still need to account for: can't put unnamed args after the first named arg.
+        let mut unknown_or_extra_arg = false;
         for (i, arg) in args.iter().enumerate() {
             if let Some(name) = &arg.name {
                 named_encountered = true;
                 resolve_identifier(ctx, &func_arg_info.symbol_table, name);
+                if !func_arg_info.arg_indices.contains(&name.v) {
+                    // reported by resolve_identifier above; there is no slot to put it in
+                    unknown_or_extra_arg = true;
+                    continue;
+                }
                 if seen_named_args.contains(&name.v) {
                     ctx.errors.push(Error::GenericWithNode {
                         msg: "Can't specify a named argument more than once".to_string(),
@@ -1130,8 +1136,20 @@ pub(crate) fn calculate_func_call_order(
                     let name = &func_arg_info.arg_indices[i as u32];
                     seen_named_args.insert(name.clone());
                     missing_arg_names.remove(name);
+                } else {
+                    ctx.errors.push(Error::GenericWithNode {
+                        msg: format!(
+                            "Too many arguments: expected at most {}",
+                            func_arg_info.nargs
+                        ),
+                        node: arg.val.node(),
+                    });
+                    unknown_or_extra_arg = true;
                 }
             }
+        }
+        if unknown_or_extra_arg {
+            return;
         }
         if !missing_arg_names.is_empty() {
             let mut msg = String::new();
